@@ -6,6 +6,7 @@ mod models;
 mod prob;
 mod report;
 mod sc;
+mod stationary;
 mod vmodel;
 
 fn arg_after(args: &[String], key: &str) -> Option<String> {
@@ -29,6 +30,7 @@ fn main() {
             };
             lattice::run(path, &opts)
         }
+        "stationary" => stationary::run(args.get(2).expect("export file")),
         "model" => vmodel::run(args.get(2).expect("export file")),
         "pbuilder" => pbuilder::run(args.get(2).expect("export file")),
         "mbuilder" => mbuilder::run(args.get(2).expect("export file")),
